@@ -20,7 +20,9 @@ RULE = ('codec: every (source, destination, function, last-packet) combination x
         'streams up to a bound are enumerated (sub "framing-exhaustive"), random cuts for longer streams; writePacket decoded independently. '
         'routing: the real CPXRouter.run() on the harness thread over a scripted transport with receivers registering before/during the '
         'stream. tunnel: the real TcpDriver (router + receive threads) over an in-memory socket in lock-step. Non-trivial = stream cut '
-        'inside a length prefix or header, >= 2 functions interleaved, or header-only/empty-payload packets.')
+        'inside a length prefix or header, >= 2 functions interleaved, or header-only/empty-payload packets. framing-large: payloads up to 65533 '
+        'bytes (limit of the 16-bit length prefix). routing histories include bursts of 20..300 packets of one function and transactions on a '
+        'function with packets waiting; the tunnels send some packet objects twice.')
 ASSUMPTIONS = ['recv(n) returns at most n bytes and never crosses an arrival-fragment boundary (standard stream-socket model)',
                'a CPX function queue exists only after its first receivePacket call (documented in the code); earlier packets may be dropped',
                'tunnel sub-check waits for worker threads with a real-time harness watchdog only (never a verdict)']
